@@ -67,15 +67,19 @@ theorem C04_aave_repay_reject_noop (s : St) (tok : String) (amount : Option Rat)
   rw [aave_unitM_snd]
   exact ekp_repay s.core tok amount withColl collTok s rfl e (aave_unitM_fst h)
 
-/-- **change_collateral** rejected (closed, nothing supplied, health factor below 1 after switching the flag off)
-    ⇒ nothing changed: the flag is written back.  Stated for coherent states (C13: every reachable state), where
-    the health-factor evaluation between the switch and the revert cannot raise. -/
-theorem C04_aave_changeCollateral_reject_noop (s : St) (hs : Good cx env s) (tok : String) (coll : Bool) (e : Err)
+/-- **change_collateral** rejected — closed market, nothing supplied (`KeyError`), token not admitted as collateral
+    (`usageAsCollateralEnabled` false; checked before anything is written), health factor below 1 after switching the flag
+    off, **or the health-factor evaluation itself raising** (cause `hfRaises`: a held token without a price / risk row in this
+    bar, a zero index — `KeyError` / `ArithmeticError`) ⇒ nothing changed: the flag is written back on both failure
+    paths (repair 65bb898; before it the second one kept the flipped flag, `C04_aave_fails_changeCollateral_hf_raises_pre_fix`).
+    No hypothesis on the state or the bar (the former version assumed a coherent state, where that evaluation cannot
+    raise). -/
+theorem C04_aave_changeCollateral_reject_noop (s : St) (tok : String) (coll : Bool) (e : Err)
     (h : (step cx env s (.changeCollateral tok coll)).1 = .error e) :
     (step cx env s (.changeCollateral tok coll)).2.core = s.core := by
   show (unitM (changeCollateral cx env tok coll) s).2.core = _
   rw [aave_unitM_snd]
-  exact changeCollateral_reject hs tok coll e (aave_unitM_fst h)
+  exact changeCollateral_reject s tok coll e (aave_unitM_fst h)
 
 /-- a **rejected read** (`get_supply` / `get_borrow` of an absent token, `get_max_borrow_amount` without
     collateral, a `KeyError` from missing data, `quantize` overflow) ⇒ nothing changed; nor does an accepted one. -/
@@ -96,19 +100,24 @@ theorem C04_aave_closed_noop (s : St) (hc : env.isOpen = false) (op : Op)
   | read v => exact absurd rfl (hop v)
   | newBar => exact absurd rfl hnb
 
-/-- the user-facing summary: in a coherent state, whichever user operation is rejected and for whatever cause,
-    supplies, borrows, wallet and action log are exactly as before -/
-theorem C04_aave_reject_noop (s : St) (hs : Good cx env s) (op : Op) (hu : op ≠ .update) (e : Err)
+/-- the user-facing summary, **any state and any bar data**: whichever user operation is rejected and for whatever cause
+    (including exceptions from missing rows and zero indices), supplies, borrows, wallet and action log are exactly as before -/
+theorem C04_aave_reject_noop_any_state (s : St) (op : Op) (hu : op ≠ .update) (e : Err)
     (h : (step cx env s op).1 = .error e) : (step cx env s op).2.core = s.core := by
   cases op with
   | supply t a c => exact C04_aave_supply_reject_noop s t a c e h
   | withdraw t a => exact C04_aave_withdraw_reject_noop s t a e h
   | borrow t a => exact C04_aave_borrow_reject_noop s t a e h
   | repay t a w c => exact C04_aave_repay_reject_noop s t a w c e h
-  | changeCollateral t c => exact C04_aave_changeCollateral_reject_noop s hs t c e h
+  | changeCollateral t c => exact C04_aave_changeCollateral_reject_noop s t c e h
   | update => exact absurd rfl hu
   | read v => exact C04_aave_read_noop s v
   | newBar => simp [step, unitM, mapM', newBar] at h
+
+/-- the former statement (coherent states only), kept as a corollary -/
+theorem C04_aave_reject_noop (s : St) (_hs : Good cx env s) (op : Op) (hu : op ≠ .update) (e : Err)
+    (h : (step cx env s op).1 = .error e) : (step cx env s op).2.core = s.core :=
+  C04_aave_reject_noop_any_state s op hu e h
 
 /-! ### non-vacuity: concrete rejected calls on a concrete portfolio -/
 
@@ -140,5 +149,41 @@ example : c04AaveErrIs (step c04AaveCx c04AaveEnv c04AaveSt (.supply "WETH" 2 fa
 example : (step c04AaveCx c04AaveEnv c04AaveSt (.supply "WETH" 2 false)).2.wallet = [("WETH", 5)] := by decide +kernel
 -- a negative amount is refused
 example : c04AaveErrIs (step c04AaveCx c04AaveEnv c04AaveSt (.borrow "USDC" (some (-1)))).1 .zeroAmount = true := by decide +kernel
+
+
+/-! ### the defect repaired by 65bb898: the health-factor read raising inside `change_collateral` -/
+
+/-- the bar of `c04AaveEnv` without a price for USDC (the debt token) -/
+def c04AaveEnvNoPrice : Env := { c04AaveEnv with price := [("WETH", 1000)] }
+
+/-- `change_collateral` as it was before the repair: flag flipped, `health_factor` read with no handler -/
+def c04ChangeCollateralPreFix (cx : ACtx) (env : Env) (tok : String) (coll : Bool) : M Unit := do
+  guardOpen env
+  let info ← lookupSupply tok
+  if info.coll == coll then setUpdated
+  else do
+    commitFlag tok { info with coll := coll }
+    if !coll then do
+      let hf ← healthFactor cx env
+      if hf.ltR Gen.aaveHfThreshold then do
+        commitFlag tok info
+        M.throw .hfLow
+      else pure ()
+    else pure ()
+    setUpdated
+
+-- the repaired call: `KeyError` from the price lookup, and WETH is still flagged as collateral
+example : c04AaveErrIs (step c04AaveCx c04AaveEnvNoPrice c04AaveSt (.changeCollateral "WETH" false)).1 .keyPrice = true := by
+  decide +kernel
+example : (step c04AaveCx c04AaveEnvNoPrice c04AaveSt (.changeCollateral "WETH" false)).2.supplies = c04AaveSt.supplies := by
+  decide +kernel
+
+/-- **witness of the pre-fix behaviour**: 10 WETH collateral, 7000 USDC debt, a bar whose price vector lacks USDC:
+    `change_collateral(WETH, False)` raised `KeyError` and left `_supplies[WETH].collateral == False` — a rejected call
+    that changed the position. -/
+theorem C04_aave_fails_changeCollateral_hf_raises_pre_fix :
+    c04AaveErrIs (c04ChangeCollateralPreFix c04AaveCx c04AaveEnvNoPrice "WETH" false c04AaveSt).1 .keyPrice = true ∧
+    (c04ChangeCollateralPreFix c04AaveCx c04AaveEnvNoPrice "WETH" false c04AaveSt).2.core ≠ c04AaveSt.core := by
+  decide +kernel
 
 end Demeter
